@@ -129,3 +129,18 @@ def has_splits(lines):
     return any(l.kind in ("SPLIT", "UNSPLIT") for l in lines)
 
 CLASSES = {f.__name__: f for f in (kf_nonadjacent_same_day_sells, kf_event_after_split, kf_same_day_mixed_events, kf_inexact_ratio_chain)}
+
+
+# D11 (Decimal overflow panics): identified by the input, not by the panic text.  The 96-bit decimal overflows when an integer part
+# passes 7.9e28; that takes a figure of ten or more integer digits, or a non-zero one below 1e-9 (as a divisor), somewhere in the
+# input.  An overflow panic on an input whose every decimal literal lies within 1e-9 .. 1e9 is not this finding.
+import re as _re
+_DEC = _re.compile(rb"\d+(?:[.,]\d+)*")
+def extreme_magnitudes(data):
+    if isinstance(data, str): data = data.encode("utf-8", "replace")
+    for m in _DEC.finditer(data):
+        t = m.group(0).replace(b",", b"")
+        ip, _, fp = t.partition(b".")
+        if len(ip.lstrip(b"0")) >= 10: return True
+        if not ip.strip(b"0") and fp.strip(b"0") and len(fp) - len(fp.lstrip(b"0")) >= 9: return True
+    return False
